@@ -115,7 +115,7 @@ struct Case {
 fn gen_case(r: &mut Rng, tier: &str) -> Case {
     let big = tier == "thorough";
     let cap = if big { 34 } else { 22 }; // bound on the number of top-dimensional elements
-    let fam = r.below(12);
+    let fam = r.below(13);
     let dim = if r.chance(1, 2) { 2 } else { 3 };
     let mut els: Vec<El> = Vec::new();
     let mut nn: usize;
@@ -315,6 +315,49 @@ fn gen_case(r: &mut Rng, tier: &str) -> Case {
             let at = r.below(blocks.len() as u64 + 1) as usize;
             blocks.insert(at, (*r.pick(top_types(dim)), Vec::new()));
             return Case { fam: name, nn, cdim: dim, blocks };
+        }
+        11 => {
+            // non-conforming 2-D: some quadrilaterals of a grid refined into four, their neighbours
+            // not (hanging nodes: a coarse cell shares one node with each fine cell across the edge)
+            name = "nonconforming_2d";
+            let nx = r.range(1, 3) as usize;
+            let ny = r.range(1, 3) as usize;
+            nn = (nx + 1) * (ny + 1);
+            let id = |i: usize, j: usize| j * (nx + 1) + i;
+            let mut mid: std::collections::BTreeMap<(usize, usize), usize> = Default::default();
+            let tri_too = r.chance(1, 2);
+            for j in 0..ny {
+                for i in 0..nx {
+                    let q = [id(i, j), id(i + 1, j), id(i + 1, j + 1), id(i, j + 1)];
+                    if r.chance(1, 2) {
+                        let mut m = [0usize; 4];
+                        for k in 0..4 {
+                            let (a, b) = (q[k], q[(k + 1) % 4]);
+                            let key = (a.min(b), a.max(b));
+                            m[k] = *mid.entry(key).or_insert_with(|| {
+                                nn += 1;
+                                nn - 1
+                            });
+                        }
+                        let c = nn;
+                        nn += 1;
+                        for k in 0..4 {
+                            let sub = vec![q[k], m[k], c, m[(k + 3) % 4]];
+                            if tri_too && r.chance(1, 3) {
+                                els.push((ElementType::Triangle, vec![sub[0], sub[1], sub[2]]));
+                                els.push((ElementType::Triangle, vec![sub[0], sub[2], sub[3]]));
+                            } else {
+                                els.push((ElementType::Quadrilateral, sub));
+                            }
+                        }
+                    } else {
+                        els.push((ElementType::Quadrilateral, q.to_vec()));
+                    }
+                }
+            }
+            for _ in 0..r.range(0, 3) {
+                els.push((ElementType::Edge, distinct_nodes(r, nn, 2)));
+            }
         }
         _ => {
             // any types, any dimension mix, larger pool
